@@ -478,6 +478,30 @@ func ke(r *mc.Run) {
 			try([]int{i, j})
 		}
 	}
+	// the project's writers take lists of algorithms and protocols (what a client
+	// offers): a message written with a list decodes to the same data as with the
+	// single entries, whatever the position of AES-SIV-CMAC-256 in the list
+	for _, algos := range [][]uint16{{15, 16}, {16, 15}, {17, 15, 16}, {15, 15}} {
+		var lm ntske.ExchangeMsg
+		lm.AddRecord(ntske.NextProto{NextProto: ntske.NTPv4})
+		lm.AddRecord(ntske.Algorithm{Algo: algos})
+		lm.AddRecord(ntske.Server{Addr: []byte("192.0.2.55")})
+		lm.AddRecord(ntske.Port{Port: 4123})
+		for _, c := range want {
+			lm.AddRecord(ntske.Cookie{Cookie: c})
+		}
+		lm.AddRecord(ntske.End{})
+		lb, err := lm.Pack()
+		if err != nil {
+			r.T.Fatal(err)
+		}
+		d, err := readSeg(lb.Bytes(), nil)
+		r.Evals++
+		r.Distinct++
+		if err != nil || expect(d) != "" {
+			r.Fail("ntske", "ntske-record-roundtrip", fmt.Sprintf("message written with the algorithm list %v: err=%v %s", algos, err, expect(d)), in{Kind: "kelist"})
+		}
+	}
 	// a short message: every segmentation
 	var small ntske.ExchangeMsg
 	small.AddRecord(ntske.NextProto{NextProto: ntske.NTPv4})
